@@ -188,29 +188,13 @@ def check(ctx):
         ctx.ob("R4", f"GeckoWaterHeater.{nm}::F-or-C", not bad,
                f"GeckoWaterHeater.{nm} does not write 'F' for the Fahrenheit aliases and 'C' otherwise to the unit item: {bad[:3]}", repo.method("GeckoWaterHeater", nm).loc)
 
-    # ---- R5 SPACK construction ----------------------------------------------------------------
-    def builder_call(fi, builder):
-        for n in ast.walk(fi.node):
-            if isinstance(n, ast.Call) and ast.unparse(n.func) == f"GeckoPackCommandProtocolHandler.{builder}":
-                return n
-        return None
-
-    for qual, builder, tail in (("GeckoAsyncSpa._on_async_set_value", "set_value", ["self.pack_type", "self.config_version", "self.log_version", "pos", "length", "newvalue"]),
-                                ("GeckoSpa._on_set_value", "set_value", ["self.pack_type", "self.config_version", "self.log_version", "pos", "length", "newvalue"]),
-                                ("GeckoAsyncSpa.async_press", "keypress", ["self.pack_type", "keypad"]),
-                                ("GeckoSpa.press", "keypress", ["self.pack_type", "keypad"])):
-        fi = repo.func(qual)
-        c = builder_call(fi, builder)
-        ctx.ob("R5", f"{qual}::builds-{builder}", c is not None, f"{qual} does not build GeckoPackCommandProtocolHandler.{builder}", fi.loc)
-        if c is None:
-            continue
-        args = [ast.unparse(a) for a in c.args]
-        seq_ok = isinstance(c.args[0], ast.Call) and call_name(c.args[0]) == "get_and_increment_sequence_counter" and ast.unparse(c.args[0].args[0]) == "True"
-        ctx.ob("R5", f"{qual}::sequence-from-command-counter", seq_ok, f"{qual}: sequence argument `{args[0]}` is not a command-range counter draw", loc(fi, c))
-        ctx.ob("R5", f"{qual}::arguments", args[1:] == tail, f"{qual}: {builder} gets {args[1:]}, expected {tail} (pack type, versions and the accessor's pos/length/value unchanged)", loc(fi, c),
-               sample={"rule": "R5", "site": qual, "builder": builder, "args": args})
-        kw = {k.arg: ast.unparse(k.value) for k in c.keywords}
-        ctx.ob("R5", f"{qual}::addressed", kw.get("parms") == "self.sendparms", f"{qual}: command not addressed with parms=self.sendparms", loc(fi, c))
+    # ---- R5 SPACK construction: by interpretation on a model connection (vlib/writemodel.py) ----------------------
+    # both set-value callbacks and both key-press entry points emit exactly one request whose bytes equal the
+    # command builder's output for (command-range sequence, the connection's pack type / versions, the caller's
+    # position / length / value or key code), addressed to the connection's own peer
+    from ..writemodel import device_writes, key_presses
+    device_writes(ctx, repo, "R5", kinds=True)
+    key_presses(ctx, repo, "R5")
     for cname, meth in (("GeckoAsyncSpa", "_connect"), ("GeckoSpa", "_on_config_received")):
         fi = repo.method(cname, meth)
         t = ast.unparse(fi.node)
@@ -218,14 +202,18 @@ def check(ctx):
         ok = ok and ("self.config_version = config_file_handler.config_version" in t or "self.config_version = handler.config_version" in t)
         ok = ok and ("self.log_version = config_file_handler.log_version" in t or "self.log_version = handler.log_version" in t)
         ctx.ob("R5", f"{cname}.{meth}::pack-identity-from-connection", ok, f"{cname}.{meth}: pack_type/config_version/log_version are not taken from the connected pack's FILES reply", fi.loc)
-    # the structure delegates unchanged
+    # the structure delegates unchanged (path rule shared with C02.R8)
+    from ..pathrules import pass_through
     for cname in ("GeckoAsyncStructure", "GeckoStructure"):
         for nm in ("set_value", "async_set_value"):
             m = repo.own_method(cname, nm, required=False)
             if m is None:
                 continue
-            t = ast.unparse(m.node)
-            ctx.ob("R5", f"{cname}.{nm}::delegates-unchanged", "(pos, length, newvalue)" in t, f"{cname}.{nm} does not delegate (pos, length, newvalue) unchanged", m.loc)
+            verdict, detail = pass_through(cfg_of(m), m, 3)
+            if verdict is None:
+                ctx.error(f"{cname}.{nm}: {detail} - idiom not supported by C13.R5")
+                continue
+            ctx.ob("R5", f"{cname}.{nm}::delegates-unchanged", verdict, f"{cname}.{nm} does not delegate (pos, length, newvalue) unchanged: {detail}", m.loc)
 
     # ---- R6 watercare -----------------------------------------------------------------------------
     fi = repo.own_method("GeckoWaterCare", "async_set_mode")
